@@ -165,4 +165,51 @@ def runVariadic (code : List VStmt) (prevB : Bool) (prev : List Nat) (curB : Boo
   | .done stored => some (stored.getD (prevB, prev))
   | _ => none
 
+/-! ### `__instancecheck_str__`: the order of its stages -/
+
+inductive IStage
+  | transparent      -- `if cls._skip_instancecheck: return ""`
+  | typeTest         -- `Any`: both `hasattr`s; otherwise `isinstance(obj, cls.array_type)`; else `return <msg>`
+  | flattenAccept    -- `if get_treeflatten_memo(): return ""`
+  | dtypeName        -- the extraction of the dtype's name into `dtype`
+  | dtypeTest        -- `if cls.dtypes is not _any_dtype: ... if not in_dtypes: return <msg>`
+  | snapshot         -- `get_shape_memo()` and the four `.copy()` backups
+  | walk             -- `try: check = cls._check_shape(...) except <class>: set_shape_memo(<backups>); raise`
+  | finish           -- `if check == "": return check else: set_shape_memo(<backups>); return check`
+  | unknown
+  deriving DecidableEq, Repr
+
+structure IState where
+  haveName : Bool := false
+  haveSnap : Bool := false
+  walked : Option (Walk (Single × Variadic)) := none
+
+/-- run the stages in source order; `none` = a Python error (a name used before it is assigned, an
+    unrecognised statement, falling off the end) -/
+def runStages (catch_ : Catch) (flatten : Bool) (tp : TreePath) (a : Ann) (o : ArrObj) (m : Memo) :
+    List IStage → IState → Option (Verdict × Memo)
+  | [], _ => none
+  | .transparent :: rest, st => if a.transparent then some (.T, m) else runStages catch_ flatten tp a o m rest st
+  | .typeTest :: rest, st => if !o.isInst then some (.F, m) else runStages catch_ flatten tp a o m rest st
+  | .flattenAccept :: rest, st => if flatten then some (.T, m) else runStages catch_ flatten tp a o m rest st
+  | .dtypeName :: rest, st => runStages catch_ flatten tp a o m rest { st with haveName := true }
+  | .dtypeTest :: rest, st =>
+    if !st.haveName then none
+    else if !a.dtypes.accepts o.dtype then some (.F, m) else runStages catch_ flatten tp a o m rest st
+  | .snapshot :: rest, st => runStages catch_ flatten tp a o m rest { st with haveSnap := true }
+  | .walk :: rest, st =>
+    if !st.haveSnap then none
+    else
+      match checkShape tp m.args a.shape o.shape m.single m.variadic with
+      | .exc e (σ, ν) =>
+        some (if catch_.covers e then (.EXC e, m) else (.EXC e, { m with single := σ, variadic := ν }))
+      | .annErr => some (.ANN, m)      -- raised inside the `try`: the handler restores and re-raises
+      | w => runStages catch_ flatten tp a o m rest { st with walked := some w }
+  | .finish :: _, st =>
+    (match st.walked with
+     | some (.ok (σ, ν)) => some (.T, { m with single := σ, variadic := ν })
+     | some .fail => some (.F, m)
+     | _ => none)
+  | .unknown :: _, _ => none
+
 end JV
